@@ -235,6 +235,7 @@ def o5_1_reads_under_mutex(mir, tier):
                         label = 'DB::get without a snapshot does not look up at the last published sequence number'
                         if label not in seen:
                             seen.add(label); res.violations.append({'label': label, 'events': [str(x[0]) for x in evs], 'sequence_used': str(e[1]), 'replay': ['sched_batch_visibility', 'plain']})
+            res.checked += 1
             reads = sorted(set(e[1] for e in evs if e[0] == 'read'))
             res.cases['%s reads %s' % (name, reads)] = res.cases.get('%s reads %s' % (name, reads), 0) + 1
         ex, fn = run_db_method(mir, name, args, on_path)
@@ -280,6 +281,7 @@ def o9_1_no_self_deadlock(mir, tier):
                     seen.add(label)
                     res.violations.append({'label': label, 'events': [' '.join(x) for x in evs[:i + 1]], 'expect_hang': True,
                                            'replay': ['descriptor_watchdog', variant] if name == 'get_descriptor' else None})
+            res.checked += 1
             res.cases['%s%s' % (name, variant)] = res.cases.get('%s%s' % (name, variant), 0) + 1
         try:
             ex, fn = run_db_method(mir, name, args, on_path, loop_bound=9)
